@@ -19,6 +19,8 @@ IR (hashable tuples):
  ("copy", L) ("removeone", L, x) ("appended", L, x)
  ("phi", cond, a, b) ("carried", name, loop) ("acc", name) ("unknown", text)
  ("lambda", (("bv", param, uid), ...), body)      a lambda / a nested single-return def used as a value
+ ("rectype", name, (field, ...)[, ((field, default), ...)])   a namedtuple type (handed in through `consts`)
+ ("record", name, ((field, value), ...))           an instance built by calling a rectype
  ("raise", exc)                                   leaf of the phi value of an inlined helper on a path that raises (Flow(raise_arms=True))
 
 simp also reads stdlib spellings as the displays / comprehensions they are equal to: functools.reduce over a display (unfolded),
@@ -286,6 +288,10 @@ class Flow:
 
     def e_Attribute(self, n):
         base = self.ev(n.value)
+        if base[0] == "record":
+            for nm, val in base[2]:
+                if nm == n.attr:
+                    return val
         r = self._record_field(base, n.attr)
         return r if r is not None else ("attr", base, n.attr)
 
@@ -560,6 +566,18 @@ class Flow:
             r = self._apply(self.env[f.id], args, kws)
             if r is not None:
                 return r
+        # `Point(1, y=2)` with Point a namedtuple type known to the caller (consts: ("rectype", name, fields)): the record with
+        # every field bound -- reading `.x` / `[0]` / unpacking it then yields the field's value
+        if isinstance(f, (ast.Name, ast.Attribute)) and all(k != "**" for k, _ in kws) and not any(a[0] == "star" for a in args):
+            ctor = self.ev(f)
+            if ctor[0] == "rectype":
+                fields = ctor[2]
+                given = dict(zip(fields, args))
+                if len(args) <= len(fields) and all(k in fields and k not in given for k, _ in kws):
+                    given.update(kws)
+                    given = {**dict(ctor[3]), **given} if len(ctor) > 3 else given
+                    if all(fl_ in given for fl_ in fields):
+                        return ("record", ctor[1], tuple((fl_, given[fl_]) for fl_ in fields))
         if isinstance(f, ast.Name) and self.func_resolver is not None and f.id not in self.env and self._depth < 2 and all(k != "**" for k, _ in kws):
             callee = self.func_resolver(f.id)
             if callee is not None and callee is not self.func:
@@ -673,6 +691,8 @@ class Flow:
                     self.bind(e.value, ("item", value, ("star", i, n)), node)
                 elif value[0] in ("tuple", "list") and not star and len(value[1]) == n:
                     self.bind(e, value[1][i], node)
+                elif value[0] == "record" and not star and len(value[2]) == n:
+                    self.bind(e, value[2][i][1], node)
                 else:
                     self.bind(e, ("item", value, i if not star or i < star[0] else i - n), node)
         elif isinstance(target, ast.Subscript):
@@ -1506,6 +1526,54 @@ def simp(v):
         hits = [val for key, val in v[1][1] if key == v[2]]
         if len(hits) == 1:
             return hits[0]
+    # first-hit-wins selection: `x = a; if not x: x = b` / `if a: return a; return b` / `a if a else b` all yield `a or b`
+    # (the value of `or` is its first truthy operand, else the last one); nested selections flatten into one chain
+    if k in ("phi", "ifexp") and len(v) == 4:
+        c, pol = norm_guard((v[1], True))
+        hit, miss = (v[2], v[3]) if pol else (v[3], v[2])
+        if hit == c and c[0] not in ("const", "cmp", "bool", "unop"):
+            parts = (c,) + (tuple(miss[2]) if miss[0] == "bool" and miss[1] == "Or" else (miss,))
+            return ("bool", "Or", parts)
+        if hit[0] == "bool" and hit[1] == "Or" and c == hit:
+            # `x = a or b; if not x: x = c`
+            return ("bool", "Or", tuple(hit[2]) + (tuple(miss[2]) if miss[0] == "bool" and miss[1] == "Or" else (miss,)))
+    if k == "bool" and v[1] == "Or" and any(x[0] == "bool" and x[1] == "Or" for x in v[2]):
+        return ("bool", "Or", tuple(y for x in v[2] for y in (x[2] if x[0] == "bool" and x[1] == "Or" else (x,))))
+    # ---- stdlib spellings of a comprehension: map(f, S) / filter(p, S) / list(<generator>) (values only, nothing is run) ----
+    if k == "call" and v[1] in (("global", "map"), ("global", "filter")) and len(v[2]) == 2 and not v[3] and v[2][1][0] != "star":
+        f_, seq_ = v[2]
+        bv = None
+        if f_[0] == "lambda" and len(f_[1]) == 1:
+            bv, body = f_[1][0], f_[2]
+        elif f_[0] in ("attr", "global") and v[1][1] == "map" and f_ != ("const", None):
+            bv = ("bv", "_m", next(_fresh))
+            body = simp(("meth", f_[1], f_[2], (bv,), ())) if f_[0] == "attr" else simp(("call", f_, (bv,), ()))
+        if bv is not None:
+            if v[1][1] == "map":
+                return simp(("comp", "gen", body, ((bv, seq_, ()),)))
+            return simp(("comp", "gen", bv, ((bv, seq_, (body,)),)))
+    if k == "call" and v[1] in (("global", "list"), ("global", "tuple")) and len(v[2]) == 1 and not v[3] and v[2][0][0] == "comp" and v[2][0][1] == "gen":
+        return simp(("comp", "list") + tuple(v[2][0][2:]))
+    # a dict display read with a constant key: {"a": x, "b": y}["a"] / .get("a") is x
+    if (k == "sub" and v[1][0] == "dict" and v[2][0] == "const") or \
+            (k == "meth" and v[2] == "get" and v[1][0] == "dict" and len(v[3]) in (1, 2) and not v[4] and v[3][0][0] == "const"):
+        key_ = v[2] if k == "sub" else v[3][0]
+        pairs = v[1][1]
+        if pairs and all(kk[0] == "const" for kk, _ in pairs):
+            hit = [val for kk, val in pairs if kk == key_]
+            if hit:
+                return hit[-1]
+            if k == "meth":
+                return v[3][1] if len(v[3]) == 2 else ("const", None)
+    # a record (namedtuple / dataclass instance built from a known constructor): field access by name or position
+    if k == "attr" and v[1][0] == "record":
+        for nm, val in v[1][2]:
+            if nm == v[2]:
+                return val
+    if k in ("sub", "item") and v[1][0] == "record":
+        i = v[2][1] if k == "sub" and v[2][0] == "const" else v[2] if k == "item" else None
+        if type(i) is int and -len(v[1][2]) <= i < len(v[1][2]):
+            return v[1][2][i][1]
     if k == "sub":
         base, idx = v[1], v[2]
         if base[0] in ("list", "tuple") and idx[0] == "const" and isinstance(idx[1], int) \
